@@ -303,6 +303,22 @@ func (vc *VC) contractEnv(c *Contract, args []Val, results []Val, st, old *State
 	return e
 }
 
+// clauses returns the clauses of c that are part of the contract in this VC:
+// untagged clauses always; clauses tagged with properties only in the layered
+// VC of one of those properties.
+func (vc *VC) clauses(c *Contract) []*Clause {
+	if c == nil {
+		return nil
+	}
+	var out []*Clause
+	for _, cl := range c.Clauses {
+		if len(cl.Raw.Props) == 0 || (vc.layer != "" && hasProp(cl.Raw.Props, vc.layer)) {
+			out = append(out, cl)
+		}
+	}
+	return out
+}
+
 func (vc *VC) clauseProps(c *Contract, cl *Clause) []string {
 	if len(cl.Raw.Props) > 0 {
 		return cl.Raw.Props
@@ -320,12 +336,16 @@ func (vc *VC) applyContract(fr *Frame, st *State, c *Contract, call *ssa.CallCom
 			vc.oblige(st, "pre@"+c.short(), "nonnil."+c.Params[i].Name(), not(eq(args[i].L[0], bvLit(64, 0))), call.Pos(), vc.safetyProps)
 		}
 	}
-	for _, cl := range c.Clauses {
+	for _, cl := range vc.clauses(c) {
 		if cl.Raw.Kind != "requires" {
 			continue
 		}
 		g := vc.specBool(env, cl.Expr)
-		vc.oblige(st, "pre@"+c.short(), cl.Raw.Label, g, call.Pos(), vc.safetyProps)
+		pp := vc.safetyProps
+		if len(cl.Raw.Props) > 0 {
+			pp = cl.Raw.Props
+		}
+		vc.oblige(st, "pre@"+c.short(), cl.Raw.Label, g, call.Pos(), pp)
 	}
 	// havoc the assigned locations
 	targets := vc.assignTargets(c, env, -1)
@@ -347,21 +367,21 @@ func (vc *VC) applyContract(fr *Frame, st *State, c *Contract, call *ssa.CallCom
 		results = append(results, v)
 	}
 	post := vc.contractEnv(c, args, results, st, pre)
-	for _, cl := range c.Clauses {
+	for _, cl := range vc.clauses(c) {
 		if cl.Raw.Kind != "ensures" {
 			continue
 		}
 		vc.assume(st.cond, vc.specBool(post, cl.Expr))
 	}
-	vc.applyGassigns(c, post, st)
+	vc.applyGassigns(c, post, st, true)
 	return tupleOf(rt, results)
 }
 
 // applyGassigns executes the ghost assignments of a contract (ghost code that
 // runs at normal return): G(k0[, k1]) := v when cond.  k1 may be govcStar (the
 // whole row of k0).
-func (vc *VC) applyGassigns(c *Contract, env *SpecEnv, st *State) {
-	for _, cl := range c.Clauses {
+func (vc *VC) applyGassigns(c *Contract, env *SpecEnv, st *State, atCall bool) {
+	for _, cl := range vc.clauses(c) {
 		if cl.Raw.Kind != "gassign" {
 			continue
 		}
@@ -392,6 +412,9 @@ func (vc *VC) applyGassigns(c *Contract, env *SpecEnv, st *State) {
 			rs := layoutOf(fobj.Type().(*types.Signature).Results().At(0).Type()).Leaves[0].Sort
 			k0 := ghostKey(env.eval(call.Args[0]))
 			hn := ghostHeapName(g)
+			if atCall {
+				vc.dirty[hn] = true // the caller's frame must account for the callee's ghost effect
+			}
 			if len(call.Args) == 1 {
 				hs := arrSort(sBV64, rs)
 				vc.ghostSorts[hn] = hs
@@ -470,7 +493,7 @@ func (vc *VC) specBool(e *SpecEnv, x ast.Expr) (res string) {
 // assignTargets evaluates the assigns clauses (loop = -1: function level).
 func (vc *VC) assignTargets(c *Contract, env *SpecEnv, loop int) []locTarget {
 	var out []locTarget
-	for _, cl := range c.Clauses {
+	for _, cl := range vc.clauses(c) {
 		if cl.Raw.Kind != "assigns" || cl.Raw.Loop != loop {
 			continue
 		}
@@ -787,7 +810,7 @@ func (vc *VC) loopClauses(li *loopInfo, kind string) []*Clause {
 	if vc.curContract == nil {
 		return nil
 	}
-	for _, cl := range vc.curContract.Clauses {
+	for _, cl := range vc.clauses(vc.curContract) {
 		if cl.Raw.Kind == kind && cl.Raw.Loop == li.ordinal {
 			out = append(out, cl)
 		}
@@ -1074,7 +1097,7 @@ func (vc *VC) preciseCallTargets(fr *Frame, c *Contract, cc *ssa.CallCommon, st 
 		}
 	}()
 	env := vc.contractEnv(c, args, nil, st, nil)
-	for _, cl := range c.Clauses {
+	for _, cl := range vc.clauses(c) {
 		if cl.Raw.Kind != "assigns" || cl.Raw.Loop != -1 {
 			continue
 		}
